@@ -47,7 +47,7 @@ CONSTANTS Names,      \* object names (strings)
           IndexEnd,   \* first position behind magic, archive meta and index (code: 8230)
           MaxOps,     \* bound on the number of operations (0 = unbounded, nops is then not counted)
           MaxFile,    \* bound on the file size in units
-          Variant     \* "code" | "no_unlink_on_coalesce" | "no_chain_on_split" | "fits_any"
+          Variant     \* "code" | "no_unlink_on_coalesce" | "no_chain_on_split" | "stale_next_on_split" | "fits_any"
 
 ASSUME /\ Header >= 1 /\ Header <= Page /\ IndexEnd >= 1
        /\ BucketOf \in [Names -> 1..NBuckets]
@@ -168,7 +168,9 @@ PublishReplace(D, n, m, l, t, pos) ==
        THEN IF emptyEnd - objEnd < Header
               THEN Err(D3, "panic: assert empty.size >= ObjectHeader::SIZE") \* 342
               ELSE LET D4 == WriteHeader(D3, objEnd,
-                                         EmptyHdr(emptyEnd - objEnd, D3.ehead))  \* 341-344
+                                         EmptyHdr(emptyEnd - objEnd,
+                                                  IF Variant = "stale_next_on_split" THEN e.next
+                                                  ELSE D3.ehead))            \* 341-344
                    IN IF Variant = "no_chain_on_split" THEN D4
                       ELSE [D4 EXCEPT !.ehead = objEnd]                      \* 345
        ELSE D3
@@ -188,8 +190,9 @@ PublishNotFound(D, n, m, l, t) ==
 
 PublishPath(D, l) ==
   LET pos == FindEmpty(D, Paged(l))
+      at  == IF pos = D.ehead THEN "@head" ELSE "@chain"    \* is the block taken the first of the empty chain?
   IN IF pos = Nil THEN "append"
-     ELSE IF D.hdr[pos].size = Paged(l) THEN "exact" ELSE "split"
+     ELSE IF D.hdr[pos].size = Paged(l) THEN "exact" \o at ELSE "split" \o at
 
 (* create_empty, archive.rs:447-466 *)
 CreateEmpty(D, start, size) ==
